@@ -670,6 +670,9 @@ func (w *c14Worker) runExhaustive(res *runner.CaseResult, family string, chunk, 
 	if family == "array" {
 		depth = 2
 	}
+	if w.tier == "thorough" {
+		depth++
+	}
 	nprog := 0
 	var rec func(prefix []gen.Edit, m *model.Node, d int)
 	stop := false
